@@ -62,6 +62,22 @@ def plan(tier, seed):
         if i % 4 == 1:          # small grids so that extension / re-meshing happens often
             cfg['pbm'].update({'cMax': 3e-9, 'bins': 30, 'minBins': 24, 'maxBins': 48, 'adaptive': True})
         cases.append({'cfg': cfg, 'weight': precip_gen.cfg_weight(cfg)})
+    # parameters changed through public setters between two solve() calls (interfacial energy of boundary-site phases, molar
+    # volumes): the scale between third moment and volume fraction follows the parameters in force
+    # (added after seeded change C02-c: the scale was cached at the first setup)
+    for j in range(4 if tier == 'quick' else 24):
+        rng = core.case_rng(seed, PROPERTY, 7000 + j)
+        system = ['alzr', 'nialcr', 'almgsi', 'nialcr'][j % 4]
+        cfg = precip_gen.gen_config(rng, system=system, tier=tier, allow_noniso=False, grid_class='in_range',
+                                    sites=(['grain boundaries', 'grain edges', 'grain corners'] if j % 2 == 0 else None))
+        dur = sum(cfg['segments'])
+        cfg['segments'] = [0.5 * dur, 0.3 * dur, 0.2 * dur]
+        ph = cfg['phases']
+        cfg['stage_changes'] = {'1': [{'what': 'gamma', 'phase': ph[0], 'factor': float(rng.uniform(1.05, 1.3))}],
+                                '2': [{'what': str(rng.choice(['VmBeta', 'VmAlpha'])), 'phase': ph[-1], 'factor': float(rng.uniform(0.85, 1.15))}]}
+        cfg['max_steps'] = min(cfg['max_steps'], 500)
+        cfg['cap_per_segment'] = True
+        cases.append({'cfg': cfg, 'weight': precip_gen.cfg_weight(cfg) * 2})
     # age, then dissolve completely above the solvus (added after seeded change C02-b: stale statistics of an emptied phase)
     for j in range(3 if tier == 'quick' else 24):
         rng = core.case_rng(seed, PROPERTY, 5000 + j)
